@@ -60,6 +60,9 @@ func (ce *c16Env) checkpoint(rng *Rng, size int, signers string) []byte {
 	if err != nil {
 		panic(err)
 	}
+	if strings.HasPrefix(signers, "combo:") {
+		b = append(b, ce.comboLines(rng, size, strings.TrimPrefix(signers, "combo:"))...)
+	}
 	switch signers {
 	case "forged-witness":
 		// right name and key hash, garbage signature bytes
@@ -80,6 +83,113 @@ func (ce *c16Env) checkpoint(rng *Rng, size int, signers string) []byte {
 	}
 	ce.cpCache[k] = b
 	return b
+}
+
+// comboLines renders the signature lines of a combined signer set
+// "w=<kind>,m=<kind>,x=<extra>+<extra>": per own key identity (witness ML-DSA,
+// mirror) at most one line, of kind valid | forged (right name and key hash,
+// garbage) | pasted (valid cosignature of another checkpoint) | relabelled (the
+// OTHER key's valid cosignature on this checkpoint under this key's name and
+// key hash); extras: ed (witness Ed25519), foreign, wname (witness name, unknown
+// key hash, garbage), mname.
+func (ce *c16Env) comboLines(rng *Rng, size int, spec string) []byte {
+	text := ce.l.checkpointText(0, size)
+	lineOf := func(signedNote []byte, name string) string {
+		n, err := refParseNote(signedNote)
+		if err != nil {
+			panic(err)
+		}
+		for _, sg := range n.Sigs {
+			if sg.Name == name {
+				return sg.Line
+			}
+		}
+		panic("no line by " + name)
+	}
+	// the genuine lines are those of the cached "both" checkpoint, i.e. bytes the
+	// server has seen (and verified) in earlier requests
+	both := ce.checkpoint(rng, size, "both")
+	genuine := map[string]string{"w": lineOf(both, ce.e.Name), "m": lineOf(both, ce.e.MirrorName)}
+	names := map[string]string{"w": ce.e.Name, "m": ce.e.MirrorName}
+	hashes := map[string]uint32{"w": ce.s2.KeyHash(), "m": ce.sm.KeyHash()}
+	signers := map[string]*torchwood.CosignatureSigner{"w": ce.s2, "m": ce.sm}
+	mk := func(name string, kh uint32, rest []byte) string {
+		raw := append([]byte{byte(kh >> 24), byte(kh >> 16), byte(kh >> 8), byte(kh)}, rest...)
+		return "— " + name + " " + base64.StdEncoding.EncodeToString(raw) + "\n"
+	}
+	blob := func(line, name string) []byte {
+		raw, err := base64.StdEncoding.DecodeString(strings.TrimSpace(strings.TrimPrefix(line, "— "+name+" ")))
+		if err != nil {
+			panic(err)
+		}
+		return raw
+	}
+	var out []string
+	for _, part := range strings.Split(spec, ",") {
+		k, v, _ := strings.Cut(part, "=")
+		switch k {
+		case "w", "m":
+			other := map[string]string{"w": "m", "m": "w"}[k]
+			switch v {
+			case "valid":
+				out = append(out, genuine[k])
+			case "forged":
+				out = append(out, mk(names[k], hashes[k], rng.Bytes(8+2420)))
+			case "pasted":
+				o := size + 1
+				if o > len(ce.l.Chains[0].lh) {
+					o = size - 1
+				}
+				ob, _ := note.Sign(&note.Note{Text: ce.l.checkpointText(0, o)}, signers[k])
+				out = append(out, lineOf(ob, names[k]))
+			case "relabelled":
+				out = append(out, mk(names[k], hashes[k], blob(genuine[other], names[other])[4:]))
+			}
+		case "x":
+			for _, x := range strings.Split(v, "+") {
+				switch x {
+				case "ed":
+					ob, _ := note.Sign(&note.Note{Text: text}, ce.s1)
+					out = append(out, lineOf(ob, ce.e.Name))
+				case "foreign":
+					ob, _ := note.Sign(&note.Note{Text: text}, ce.foreign)
+					out = append(out, lineOf(ob, "foreign.example/witness"))
+				case "wname":
+					out = append(out, mk(ce.e.Name, uint32(rng.U64()), rng.Bytes(8+2420)))
+				case "mname":
+					out = append(out, mk(ce.e.MirrorName, uint32(rng.U64()), rng.Bytes(8+64)))
+				}
+			}
+		}
+	}
+	// seeded order
+	for i := len(out) - 1; i > 0; i-- {
+		j := rng.Intn(i + 1)
+		out[i], out[j] = out[j], out[i]
+	}
+	return []byte(strings.Join(out, ""))
+}
+
+func genC16Combo(rng *Rng) string {
+	kinds := []string{"none", "valid", "forged", "pasted", "relabelled"}
+	w, m := pickOne(rng, kinds), pickOne(rng, kinds)
+	var xs []string
+	for _, x := range []string{"ed", "foreign", "wname", "mname"} {
+		if rng.Intn(3) == 0 {
+			xs = append(xs, x)
+		}
+	}
+	var parts []string
+	if w != "none" {
+		parts = append(parts, "w="+w)
+	}
+	if m != "none" {
+		parts = append(parts, "m="+m)
+	}
+	if len(xs) > 0 {
+		parts = append(parts, "x="+strings.Join(xs, "+"))
+	}
+	return "combo:" + strings.Join(parts, ",")
 }
 
 func TestC16Subtrees(t *testing.T) {
@@ -123,6 +233,13 @@ func TestC16Subtrees(t *testing.T) {
 				runC16(r, rng, ce, c16Req{Size: size, Start: start, End: end, Signers: pickOne(rng, []string{"witness", "mirror", "both", "both"}), Hash: "correct", Proof: "correct", Body: "ok"})
 				// ... and once with a seeded deviation
 				q := c16Req{Size: size, Start: start, End: end, Signers: pickOne(rng, signerSets), Hash: "correct", Proof: "correct", Body: "ok"}
+				if rng.Intn(2) == 0 {
+					q.Signers = genC16Combo(rng)
+					if strings.Contains(q.Signers, "relabelled") {
+						// the genuine lines have been verified by the server before
+						runC16(r, rng, ce, c16Req{Size: size, Start: 0, End: int64(size), Signers: "both", Hash: "correct", Proof: "correct", Body: "ok"})
+					}
+				}
 				switch rng.Intn(6) {
 				case 0:
 					q.Hash = pickOne(rng, []string{"other-subtree", "flipped", "tree-root"})
@@ -236,6 +353,9 @@ func runC16(r *Run, rng *Rng, ce *c16Env, q c16Req) {
 	}
 	hashOK := hash == want
 	requestOK := valid && hashOK && proofOK && q.Body == "ok"
+	// a checkpoint that also carries forged / pasted / relabelled lines may be
+	// refused as a whole: an answer is demanded for clean signer sets only
+	mustAnswer := requestOK && !strings.Contains(q.Signers, "forged") && !strings.Contains(q.Signers, "pasted") && !strings.Contains(q.Signers, "relabelled")
 	lines := []string{}
 	if rec.Code == 200 {
 		for _, ln := range strings.SplitAfter(rec.Body.String(), "\n") {
@@ -282,10 +402,10 @@ func runC16(r *Run, rng *Rng, ce *c16Env, q c16Req) {
 				}
 			}
 		}
-		if requestOK && len(usedKeys) != len(expected) {
+		if mustAnswer && len(usedKeys) != len(expected) {
 			viol("missing-subtree-signature", "valid request with cosigners %v on the checkpoint got signatures from %v only", keysOfV(expected), usedKeys)
 		}
-	} else if requestOK && len(expected) > 0 {
+	} else if mustAnswer && len(expected) > 0 {
 		viol("valid-request-refused", "valid sign-subtree request (cosigners on the checkpoint: %v) was answered %d: %s", keysOfV(expected), rec.Code, truncateStr(rec.Body.String(), 100))
 	}
 	if rec.Code == 200 && len(lines) == 0 {
